@@ -1,10 +1,10 @@
-\* EXPECTED VIOLATION DurableSubseq/DbIsLog after Close: duplicates, as coded
+\* EXPECTED VIOLATION CloseFlushesAll: as coded, duplicates: a closed pool's list is not what was accepted
 CONSTANTS NTx = 3 Kind <- KindS Sender <- SenderS Nonce <- NonceS NAccs = 1 Accs <- MCAccs StartEmpty = FALSE
   Max = 3 NPushers = 1 NConsumers = 0 Batch = 2
-  MaxPush = 4 MaxBlocks = 1 MaxFail = 0 MaxCrash = 0 MaxClose = 1 MaxPops = 1 MaxExecErr = 0
+  MaxPush = 4 MaxBlocks = 1 MaxFail = 0 MaxCrash = 0 MaxClose = 1 MaxPops = 1 MaxExecErr = 0 MaxFatal = 0
   DedupFix = FALSE OverflowFix = TRUE Mutant = "none"
 INIT Init
 NEXT Next
 VIEW view
-INVARIANTS DurableSubseq
+INVARIANTS CloseFlushesAll
 CHECK_DEADLOCK FALSE
